@@ -15,7 +15,7 @@ func checkC16(c *Ctx) {
 	r := c.R
 	r.Explanation = "Decides structural necessary conditions of C16 on the three stream wrappers of package streams, on the SSA of every run. Each exported entry point (Read, Close, WriteTo) is analysed on an INLINED VIEW: the control-flow graph of the method with every statically resolved same-package callee (helper methods, functions, closures) spliced in at its call site — including function values whose target is known (a closure or method value passed as a callback such as withLock(func(){…}), a local assigned once, a func-typed field assigned once in the package, bound-method wrappers) — a call through a package interface with a single implementation and the function given to sync.Once.Do — and deferred calls replayed at the exits, counting loops over small local literals (tables of values or of steps) unrolled, branches on values that are constant in their context pruned, so a step counts wherever it is written; facts are branch conditions on paths (dominance, per-predecessor splitting of joins, short-circuit values, per-return splitting of helper results), and the types/fields are found by ROLE (the type LimitReadCloser returns; its interface field with Read+Close, its integer budget field, its bool flag; the []io.Reader field of MultiReaderCloser; the reader / writer interface fields of TeeReadCloser), not by unexported names, also when the fields are grouped into nested structs or a nil test is replaced by a flag; a closing loop over a local literal slice ([]any{r, w}) is understood; the list may hold small structs wrapping the readers; the closed flag may be a bool, an atomic.Bool (Load/Store/Swap(true)/CompareAndSwap(false,true)) or be replaced by a sync.Once around the close; clear(list) and slices.Delete(list,0,1) are read as the list updates they stand for; counting loops are recognised from their induction variable (while, range, rotated/range-over-int, backwards). " +
 		"LimitReadCloser's Read: (V1) on every path from the source read to a return the budget N was decreased by the source's count (or the count is known <= 0), and within the limit the source's count and error are passed through unchanged; " +
-		"(V2-pre) before reading, ErrStreamTooLarge is returned only under N<0 (or source==nil) and io.EOF only under the closed flag; (V2-cap) the buffer handed to the source is capped at N+1; (V2-hide) on the over-limit side the look-ahead byte is hidden (count-1); (V2-err) on the over-limit side the returned error is ErrStreamTooLarge or a source error proven != io.EOF and != nil — never the source's io.EOF; " +
+		"(V2-pre) before reading, ErrStreamTooLarge is returned only under N<0 or under a guard on another field than the budget (source==nil, a no-source flag) and io.EOF only under the closed flag; (V2-cap) the buffer handed to the source is capped at N+1; (V2-hide) on the over-limit side the look-ahead byte is hidden (count-1); (V2-err) on the over-limit side the returned error is ErrStreamTooLarge or a source error proven != io.EOF and != nil — never the source's io.EOF; " +
 		"(V2-close) every over-limit return has closed the source; (V4) the source's Close() is only reached with the flag known false, the flag is set on that path, and Close() closes the source unless already closed. " +
 		"MultiReaderCloser: (V3) a reader leaves the list (re-slice, nil-ing, truncation) only after it was closed if it is an io.Closer (exception: http.ErrBodyReadAfterClose) and, in Read, only after its Read returned a non-nil error; a reader closed while consuming is removed before it is used again or the method returns; WriteTo and Close walk the whole list (counting loop 0..len-1, or consuming it from the head, or detach-then-walk) and leave each element copied (WriteTo) and closed-if-Closer; " +
 		"(V1-multi) Read returns the head's byte count unchanged and calls the next Read only when the previous count is known <= 0; (V6) Read returns io.EOF only when no reader remains. " +
@@ -25,12 +25,12 @@ func checkC16(c *Ctx) {
 	r.Assumptions = append(r.Assumptions,
 		"underlying readers honour the io.Reader contract (0 <= n <= len(p)); io.Copy/io.CopyBuffer copy until EOF and return nil at EOF",
 		"the over-limit state of the limiting reader is exactly `budget < 0 after the post-read update`; with the N+1 cap the budget never goes below -1",
-		"helper functions are analysed as if inlined (context-sensitively, depth <= 5); a branch on a constant argument of a helper is resolved; other goroutines do not touch the wrappers during a call",
+		"helper functions are analysed as if inlined (context-sensitively, depth <= 5, no recursion); loops over local literals are unrolled up to 8 entries; a branch on a constant argument of a helper is resolved; other goroutines do not touch the wrappers during a call",
 		"a field load denotes the receiver's field (the wrappers never hold a second instance of their own type)")
 
 	r.Rule("C16.V1-count", "limitReadCloser.Read charges the source's byte count against N unconditionally; within the limit count and error pass through unchanged", 2)
 	r.Rule("C16.V2-cap", "limitReadCloser.Read hands the source a buffer of at most N+1 bytes", 1)
-	r.Rule("C16.V2-pre", "limitReadCloser.Read: before reading, ErrStreamTooLarge only under N<0 (or R==nil), io.EOF only under closed", 1)
+	r.Rule("C16.V2-pre", "limiting reader's Read: before reading, ErrStreamTooLarge only under N<0 (or a guard on a field other than the budget: no source), io.EOF only under the closed flag", 1)
 	r.Rule("C16.V2-hide", "over-limit returns report count-1 (the look-ahead byte is hidden)", 1)
 	r.Rule("C16.V2-err", "over-limit returns fail with ErrStreamTooLarge (or a source error proven non-EOF), never io.EOF/nil", 1)
 	r.Rule("C16.V2-close", "over-limit returns have closed the source", 1)
